@@ -121,6 +121,55 @@ def calls_by_line(path):
     return res
 
 
+def _tokens(node, mod_funcs, seen):
+    """identifiers a handler touches: attr:<name>, name:<id> (load), store:<id>; functions of the same module that it
+    calls are followed; a handler that cannot be resolved yields 'unresolved'"""
+    toks = []
+    for n in ast.walk(node):
+        if isinstance(n, ast.Attribute):
+            toks.append("attr:" + n.attr)
+        elif isinstance(n, ast.Name):
+            toks.append(("store:" if isinstance(n.ctx, (ast.Store, ast.Del)) else "name:") + n.id)
+            if isinstance(n.ctx, ast.Load) and n.id in mod_funcs and n.id not in seen:
+                seen.add(n.id)
+                toks += _tokens(mod_funcs[n.id], mod_funcs, seen)
+        elif isinstance(n, ast.Global):
+            toks += ["store:" + x for x in n.names]
+    return toks
+
+
+def fork_handlers(impl_dir):
+    """[(label, tokens)] for every handler passed to os.register_at_fork in psutil/_common.py and psutil/__init__.py"""
+    out = []
+    for rel in ("psutil/_common.py", "psutil/__init__.py"):
+        path = os.path.join(impl_dir, rel)
+        tree = ast.parse(open(path, encoding="utf-8").read(), path)
+        mod_funcs = {n.name: n for n in ast.walk(tree) if isinstance(n, (ast.FunctionDef, ast.AsyncFunctionDef))}
+        for n in ast.walk(tree):
+            if not isinstance(n, ast.Call):
+                continue
+            f = n.func
+            nm = f.attr if isinstance(f, ast.Attribute) else (f.id if isinstance(f, ast.Name) else "")
+            if nm != "register_at_fork":
+                continue
+            args = [("arg%d" % i, a) for i, a in enumerate(n.args)] + [(k.arg or "**", k.value) for k in n.keywords]
+            for kw, val in args:
+                if isinstance(val, ast.Constant) and val.value is None:
+                    continue
+                label = "%s:%d:%s" % (rel, n.lineno, kw)
+                if isinstance(val, ast.Name):
+                    if val.id in mod_funcs:
+                        toks = ["name:" + val.id] + _tokens(mod_funcs[val.id], mod_funcs, {val.id})
+                    else:
+                        toks = ["name:" + val.id, "unresolved"]
+                elif isinstance(val, (ast.Attribute, ast.Lambda)):
+                    toks = _tokens(val, mod_funcs, set())
+                else:
+                    toks = _tokens(val, mod_funcs, set()) + ["unresolved"]
+                out.append((label, toks))
+    return out
+
+
 def _lit(s):
     return "[" + ";".join(str(b) for b in s.encode("utf-8")) + "]"
 
@@ -138,9 +187,19 @@ def render(fns):
             "Definition gen_wrap_ops : list (list Z * list Z) :=\n  [ %s ].\n" % ";\n    ".join(rows))
 
 
+def render_fork(handlers):
+    rows = []
+    for label, toks in handlers:
+        uniq = sorted(set(toks))
+        rows.append("(%s (* %s *),\n     [%s])" % (_lit(label), label, "; ".join("%s (* %s *)" % (_lit(t), t.replace("*)", "* )")) for t in uniq)))
+    return ("\n(* every handler passed to os.register_at_fork in psutil/_common.py and psutil/__init__.py (file:line:keyword) with the\n"
+            "   identifiers it touches: attr:<x>, name:<x> (read), store:<x> (assigned); module functions it calls are followed. *)\n"
+            "Definition gen_fork_handlers : list (list Z * list (list Z)) :=\n  [ %s ].\n" % ";\n    ".join(rows))
+
+
 def gen_tables(impl_dir, out_dir):
     fns = wrap_functions(os.path.join(impl_dir, "psutil", "_common.py"))
-    txt = render(fns)
+    txt = render(fns) + render_fork(fork_handlers(impl_dir))
     os.makedirs(out_dir, exist_ok=True)
     p = os.path.join(out_dir, "C10_Tables.v")
     if not os.path.exists(p) or open(p).read() != txt:
